@@ -11,37 +11,42 @@ NumOf(x) == <<x[1], x[2], x[3]>>
 MatOf(m) == Mat(Len(m), Len(m[1]), LAMBDA a, b : NumOf(m[a][b]))
 WellFormed(m) == \A a \in 1..Len(m) : \A b \in 1..Len(m[1]) : m[a][b][3] > 0 /\ IsNumber(NumOf(m[a][b]))
 BucketLimit == 7
-NonOrthBucket == 12       \* a compression that is not orthogonal misses by more than 1e-4
+(* Matrices arrive in the specification's orbital order (the harness re-orders the code's output by orbital name, read from
+   the public table orbitals_sets_dic).  Sub-shell hybrids and residuals are recorded only for rotations that map the span
+   of the shell onto itself (the harness's floating-point filter); `domain` verifies that filter against Preserves: a
+   failing `domain` clause is a disagreement between harness and specification, not a verdict on the code.  What the code
+   returns outside the domain (today: the non-orthogonal compression) is not constrained. *)
 
 (* one rotation: the s, p, d matrices and the sub-shell hybrids returned by the code *)
 MatClauses ==
    LET R == MatOf(Rec.R)  Dp == DP(R, "code")  Dd == DD(R, "code") IN
    [ input_in_O3     |-> WellFormed(Rec.R) /\ IsOrthogonal(R),
+     domain          |-> \A k \in 1..Len(Rec.sub) : Rec.sub[k][1] \in SubShells /\ Preserves(Rec.sub[k][1], R),
      representable   |-> WellFormed(Rec.s) /\ WellFormed(Rec.p) /\ WellFormed(Rec.d) /\ \A k \in 1..Len(Rec.sub) : WellFormed(Rec.sub[k][2]),
      s_equals_spec   |-> MatOf(Rec.s) = DS(R),
      p_equals_spec   |-> MatOf(Rec.p) = Dp,
      d_equals_spec   |-> MatOf(Rec.d) = Dd,
      p_orthogonal    |-> WellFormed(Rec.p) => IsOrthogonal(MatOf(Rec.p)),
      d_orthogonal    |-> WellFormed(Rec.d) => IsOrthogonal(MatOf(Rec.d)),
-     sub_equals_spec |-> \A k \in 1..Len(Rec.sub) : Rec.sub[k][1] \in SubShells /\ MatOf(Rec.sub[k][2]) = DSub(Rec.sub[k][1], Dp, Dd),
-     sub_orthogonal_iff_preserved |-> \A k \in 1..Len(Rec.sub) : WellFormed(Rec.sub[k][2]) =>
-                             (IsOrthogonal(MatOf(Rec.sub[k][2])) <=> Preserves(Rec.sub[k][1], R)) ]
+     sub_equals_spec |-> \A k \in 1..Len(Rec.sub) : (Rec.sub[k][1] \in SubShells /\ Preserves(Rec.sub[k][1], R)) =>
+                             MatOf(Rec.sub[k][2]) = DSub(Rec.sub[k][1], Dp, Dd),
+     sub_orthogonal  |-> \A k \in 1..Len(Rec.sub) : (WellFormed(Rec.sub[k][2]) /\ Rec.sub[k][1] \in SubShells /\ Preserves(Rec.sub[k][1], R)) =>
+                             IsOrthogonal(MatOf(Rec.sub[k][2])) ]
 
-(* a product: g, h and the matrix gh passed to the code for the right-hand side; per shell the residual buckets of
-   orthogonality of D(g), D(h) and of D(g) D(h) - D(gh) *)
+(* a product: g, h and the matrix gh passed to the code for the right-hand side; per shell (only shells whose span both g
+   and h preserve are recorded) the residual buckets of orthogonality of D(g), D(h) and of D(g) D(h) - D(gh) *)
 HomClauses ==
    LET g == MatOf(Rec.g)  hh == MatOf(Rec.h)  gh == MatOf(Rec.gh) IN
    [ inputs_in_O3 |-> WellFormed(Rec.g) /\ WellFormed(Rec.h) /\ IsOrthogonal(g) /\ IsOrthogonal(hh),
      product      |-> MatMul(g, hh) = gh,
      shells_known |-> \A k \in 1..Len(Rec.shells) : Rec.shells[k].sh \in AllShells,
+     domain       |-> \A k \in 1..Len(Rec.shells) : Rec.shells[k].sh \in AllShells =>
+                         (Preserves(Rec.shells[k].sh, g) /\ Preserves(Rec.shells[k].sh, hh)),
      orthogonal   |-> \A k \in 1..Len(Rec.shells) : LET e == Rec.shells[k] IN
                          /\ Preserves(e.sh, g) => e.orth_g <= BucketLimit
                          /\ Preserves(e.sh, hh) => e.orth_h <= BucketLimit,
      homomorphism |-> \A k \in 1..Len(Rec.shells) : LET e == Rec.shells[k] IN
-                         (Preserves(e.sh, g) /\ Preserves(e.sh, hh)) => e.hom <= BucketLimit,
-     predicate_sharp |-> \A k \in 1..Len(Rec.shells) : LET e == Rec.shells[k] IN
-                         /\ ~Preserves(e.sh, g) => e.orth_g >= NonOrthBucket
-                         /\ ~Preserves(e.sh, hh) => e.orth_h >= NonOrthBucket ]
+                         (Preserves(e.sh, g) /\ Preserves(e.sh, hh)) => e.hom <= BucketLimit ]
 
 Clauses == CASE Rec.fn = "mat" -> MatClauses
              [] Rec.fn = "hom" -> HomClauses
